@@ -524,7 +524,322 @@ func (g *vgen) equiv(n ast.Node, stack []ast.Node) {
 		if x.Doc == nil {
 			g.add("shift-lines", x, "// refactoring note\n//\n// (line numbers below this point move)\n"+g.text(x))
 		}
+		g.outlineTail(x)
+		g.outlineStmts(x)
 	}
+}
+
+// freeLocals: variables of the enclosing function (parameters, locals; not the receiver) that the nodes use and
+// that are declared before pos; bad is set when one of them must not be passed by value.
+func (g *vgen) freeLocals(fd *ast.FuncDecl, nodes []ast.Node, before token.Pos) (names, typs []string, bad bool) {
+	qual := func(p *types.Package) string {
+		if p == g.pk.Types {
+			return ""
+		}
+		return p.Name()
+	}
+	seen := map[types.Object]bool{}
+	for _, nd := range nodes {
+		ast.Inspect(nd, func(n ast.Node) bool {
+			switch y := n.(type) {
+			case *ast.UnaryExpr:
+				if y.Op == token.AND {
+					if _, isID := y.X.(*ast.Ident); isID {
+						bad = true
+					}
+				}
+			case *ast.Ident:
+				obj, _ := g.pk.TypesInfo.Uses[y].(*types.Var)
+				if obj == nil || obj.IsField() || seen[obj] || obj.Pkg() != g.pk.Types || obj.Pos() < fd.Pos() || obj.Pos() >= before {
+					return true
+				}
+				seen[obj] = true
+				if fd.Recv != nil && obj.Pos() >= fd.Recv.Pos() && obj.Pos() < fd.Recv.End() {
+					return true
+				}
+				if strings.Contains(obj.Type().String(), "sync.") {
+					bad = true
+				}
+				names = append(names, obj.Name())
+				typs = append(typs, types.TypeString(obj.Type(), qual))
+			}
+			return true
+		})
+	}
+	return
+}
+
+// outlineStmts: (a) one statement from the middle of the body that neither declares anything used later nor
+// leaves the function becomes a helper without results; (b) the right-hand side of the first "x := <call…>" of the
+// body becomes a helper returning the value.
+func (g *vgen) outlineStmts(fd *ast.FuncDecl) {
+	if fd.Body == nil || len(fd.Body.List) < 3 || fd.Type.TypeParams != nil {
+		return
+	}
+	recvName, recvType := "", ""
+	if fd.Recv != nil {
+		if len(fd.Recv.List) != 1 || len(fd.Recv.List[0].Names) != 1 {
+			return
+		}
+		recvName, recvType = fd.Recv.List[0].Names[0].Name, g.text(fd.Recv.List[0].Type)
+	}
+	lower := strings.ToLower(fd.Name.Name[:1]) + fd.Name.Name[1:]
+	sig := func(name string, names, typs []string, res string) (decl, call string) {
+		d, c := "func ", ""
+		if fd.Recv != nil {
+			d += "(" + recvName + " " + recvType + ") "
+			c = recvName + "."
+		}
+		d += name + "("
+		c += name + "("
+		for i := range names {
+			if i > 0 {
+				d += ", "
+				c += ", "
+			}
+			d += names[i] + " " + typs[i]
+			c += names[i]
+		}
+		return d + ")" + res, c + ")"
+	}
+	// (a)
+	mid := fd.Body.List[len(fd.Body.List)/2]
+	okMid := true
+	switch mid.(type) {
+	case *ast.ExprStmt, *ast.IfStmt, *ast.ForStmt, *ast.RangeStmt, *ast.AssignStmt, *ast.IncDecStmt:
+	default:
+		okMid = false
+	}
+	if as, isAs := mid.(*ast.AssignStmt); isAs && as.Tok == token.DEFINE {
+		okMid = false
+	}
+	ast.Inspect(mid, func(n ast.Node) bool {
+		switch n.(type) {
+		case *ast.ReturnStmt, *ast.BranchStmt, *ast.DeferStmt, *ast.GoStmt, *ast.LabeledStmt, *ast.FuncLit:
+			okMid = false
+		}
+		return okMid
+	})
+	if okMid {
+		names, typs, bad := g.freeLocals(fd, []ast.Node{mid}, mid.Pos())
+		// a local assigned inside the statement would be assigned in the copy
+		assigned := false
+		ast.Inspect(mid, func(n ast.Node) bool {
+			mark := func(e ast.Expr) {
+				if id, ok := e.(*ast.Ident); ok {
+					for _, nm := range names {
+						if nm == id.Name {
+							assigned = true
+						}
+					}
+				}
+			}
+			switch y := n.(type) {
+			case *ast.AssignStmt:
+				if y.Tok != token.DEFINE {
+					for _, l := range y.Lhs {
+						mark(l)
+					}
+				}
+			case *ast.IncDecStmt:
+				mark(y.X)
+			}
+			return true
+		})
+		if !bad && !assigned {
+			decl, call := sig(lower+"Step", names, typs, "")
+			s0, e0 := g.fset.Position(mid.Pos()).Offset, g.fset.Position(mid.End()).Offset
+			// replace the statement by the call, append the helper after the function
+			fe := g.fset.Position(fd.End()).Offset
+			repl := call + string(g.src[e0:fe]) + "\n\n" + decl + " {\n\t" + string(g.src[s0:e0]) + "\n}"
+			g.out = append(g.out, variant{Op: "outline-stmt", File: g.file, Line: g.fset.Position(mid.Pos()).Line, Func: fd.Name.Name,
+				Old: "middle statement of " + fd.Name.Name, New: repl, s: s0, e: fe})
+		}
+	}
+	// (b)
+	for _, st := range fd.Body.List {
+		as, ok := st.(*ast.AssignStmt)
+		if !ok || as.Tok != token.DEFINE || len(as.Lhs) != 1 || len(as.Rhs) != 1 {
+			continue
+		}
+		if _, isCall := as.Rhs[0].(*ast.CallExpr); !isCall {
+			continue
+		}
+		hasLit := false
+		ast.Inspect(as.Rhs[0], func(n ast.Node) bool {
+			if _, isL := n.(*ast.FuncLit); isL {
+				hasLit = true
+			}
+			return !hasLit
+		})
+		tv, okT := g.pk.TypesInfo.Types[as.Rhs[0]]
+		if hasLit || !okT || tv.Type == nil {
+			continue
+		}
+		if _, isTuple := tv.Type.(*types.Tuple); isTuple {
+			continue
+		}
+		names, typs, bad := g.freeLocals(fd, []ast.Node{as.Rhs[0]}, st.Pos())
+		if bad {
+			break
+		}
+		qual := func(p *types.Package) string {
+			if p == g.pk.Types {
+				return ""
+			}
+			return p.Name()
+		}
+		decl, call := sig(lower+"Value", names, typs, " "+types.TypeString(tv.Type, qual))
+		s0, e0 := g.fset.Position(as.Rhs[0].Pos()).Offset, g.fset.Position(as.Rhs[0].End()).Offset
+		fe := g.fset.Position(fd.End()).Offset
+		repl := call + string(g.src[e0:fe]) + "\n\n" + decl + " {\n\treturn " + string(g.src[s0:e0]) + "\n}"
+		g.out = append(g.out, variant{Op: "outline-value", File: g.file, Line: g.fset.Position(st.Pos()).Line, Func: fd.Name.Name,
+			Old: "first initialiser of " + fd.Name.Name, New: repl, s: s0, e: fe})
+		break
+	}
+}
+
+// outlineTail: "extract function" — the second half of a function body becomes a helper with the same
+// receiver; parameters and the locals the tail uses are passed along. Only shapes where this is plainly
+// behaviour-preserving are generated (no named results, no closures or defers in the head, tail statements
+// at the top level of the body, no labels).
+func (g *vgen) outlineTail(fd *ast.FuncDecl) {
+	if fd.Body == nil || len(fd.Body.List) < 4 || fd.Type.TypeParams != nil {
+		return
+	}
+	if fd.Type.Results != nil {
+		for _, r := range fd.Type.Results.List {
+			if len(r.Names) > 0 {
+				return
+			}
+		}
+	}
+	k := len(fd.Body.List) / 2
+	head, tail := fd.Body.List[:k], fd.Body.List[k:]
+	bad := false
+	for _, st := range head {
+		ast.Inspect(st, func(n ast.Node) bool {
+			switch n.(type) {
+			case *ast.FuncLit, *ast.DeferStmt, *ast.GoStmt, *ast.LabeledStmt:
+				bad = true
+			}
+			return !bad
+		})
+	}
+	for _, st := range tail {
+		ast.Inspect(st, func(n ast.Node) bool {
+			switch y := n.(type) {
+			case *ast.LabeledStmt:
+				bad = true
+			case *ast.BranchStmt:
+				if y.Label != nil {
+					bad = true
+				}
+			}
+			return !bad
+		})
+	}
+	// the function must end in a return (or have no results)
+	hasResults := fd.Type.Results != nil && len(fd.Type.Results.List) > 0
+	if hasResults {
+		if _, ok := tail[len(tail)-1].(*ast.ReturnStmt); !ok {
+			bad = true
+		}
+	}
+	if bad {
+		return
+	}
+	tailStart := tail[0].Pos()
+	qual := func(p *types.Package) string {
+		if p == g.pk.Types {
+			return ""
+		}
+		return p.Name()
+	}
+	// variables declared before the tail (parameters, receiver, locals of the head) that the tail uses
+	type pv struct{ name, typ string }
+	var params []pv
+	seen := map[types.Object]bool{}
+	var recvName, recvType string
+	if fd.Recv != nil && len(fd.Recv.List) == 1 {
+		if len(fd.Recv.List[0].Names) == 1 {
+			recvName = fd.Recv.List[0].Names[0].Name
+		}
+		recvType = g.text(fd.Recv.List[0].Type)
+	}
+	for _, st := range tail {
+		ast.Inspect(st, func(n ast.Node) bool {
+			id, ok := n.(*ast.Ident)
+			if !ok {
+				return true
+			}
+			obj, _ := g.pk.TypesInfo.Uses[id].(*types.Var)
+			if obj == nil || obj.IsField() || seen[obj] || obj.Pkg() != g.pk.Types {
+				return true
+			}
+			if obj.Pos() < fd.Pos() || obj.Pos() >= tailStart {
+				return true // package level, or declared inside the tail
+			}
+			seen[obj] = true
+			if strings.Contains(obj.Type().String(), "sync.") {
+				bad = true // a lock or wait group cannot be handed over by value
+			}
+			if recvName != "" && obj.Name() == recvName && fd.Recv != nil && obj.Pos() >= fd.Recv.Pos() && obj.Pos() < fd.Recv.End() {
+				return true // the receiver stays the receiver
+			}
+			params = append(params, pv{obj.Name(), types.TypeString(obj.Type(), qual)})
+			return true
+		})
+	}
+	// a local whose address the tail takes would be copied
+	for _, st := range tail {
+		ast.Inspect(st, func(n ast.Node) bool {
+			if u, ok := n.(*ast.UnaryExpr); ok && u.Op == token.AND {
+				if id, isID := u.X.(*ast.Ident); isID {
+					if obj, _ := g.pk.TypesInfo.Uses[id].(*types.Var); obj != nil && seen[obj] {
+						bad = true
+					}
+				}
+			}
+			return true
+		})
+	}
+	if bad || (fd.Recv != nil && recvName == "") {
+		return
+	}
+	name := strings.ToLower(fd.Name.Name[:1]) + fd.Name.Name[1:] + "Tail" // an extracted helper is unexported
+	var decl, call strings.Builder
+	decl.WriteString("func ")
+	if fd.Recv != nil {
+		decl.WriteString("(" + recvName + " " + recvType + ") ")
+		call.WriteString(recvName + ".")
+	}
+	decl.WriteString(name + "(")
+	call.WriteString(name + "(")
+	for i, p := range params {
+		if i > 0 {
+			decl.WriteString(", ")
+			call.WriteString(", ")
+		}
+		typ := p.typ
+		decl.WriteString(p.name + " " + typ)
+		call.WriteString(p.name)
+	}
+	decl.WriteString(")")
+	call.WriteString(")")
+	if hasResults {
+		decl.WriteString(" " + g.text(fd.Type.Results))
+	}
+	s0 := g.fset.Position(tailStart).Offset
+	e0 := g.fset.Position(fd.Body.Rbrace).Offset
+	tailText := string(g.src[s0:e0])
+	callStmt := call.String()
+	if hasResults {
+		callStmt = "return " + callStmt
+	}
+	repl := callStmt + "\n}\n\n" + decl.String() + " {\n\t" + tailText
+	g.out = append(g.out, variant{Op: "outline-tail", File: g.file, Line: g.fset.Position(fd.Pos()).Line, Func: fd.Name.Name,
+		Old: "second half of " + fd.Name.Name, New: repl, s: s0, e: e0})
 }
 
 // blockEquiv: statement-level behaviour-preserving rewrites inside one block.
